@@ -1,6 +1,6 @@
 """C07: check configuration (PROPS_ENTRY, consumed by ./check and gen_manifest.py) and the list of lemmas that make up
 the property file (SPEC_ENTRY, consumed by tools/mkprops.py)."""
-PROPS_ENTRY = {'models': ['Model/Queue.v', 'Model/Owning.v'],
+PROPS_ENTRY = {'models': ['Model/Queue.v', 'Model/Owning.v', 'Model/Config.v', 'Model/ConfigSpec.v'],
  'design_ref': 'DESIGN.md 3 C07',
  'assumptions': ['raw VirtQueue users keep the documented caller contract of pop_used (pass the buffers submitted for the token): it is a hypothesis of C07_pop_any_used_ring, not hidden',
                  'memory safety means: no reachable call of an unsafe operation of the crate outside its documented precondition (unshare / dealloc of something not live, slice beyond its buffer); it is not a proof about the Rust abstract machine (aliasing, provenance)',
@@ -9,7 +9,7 @@ PROPS_ENTRY = {'models': ['Model/Queue.v', 'Model/Owning.v'],
                    'drivers other than the raw queue, OwningQueue and VirtIOInput are exercised adversarially by their own properties (C14-C18, C20)']}
 
 SPEC_ENTRY = {'title': 'A misbehaving device cannot corrupt driver state or cause invalid memory access',
- 'imports': ['Model.Queue', 'Model.Owning', 'Proofs.QueueInv', 'Proofs.QueueReach', 'Proofs.QueueProps', 'Proofs.QueueNonInt', 'Proofs.OwningProofs'],
+ 'imports': ['Model.Queue', 'Model.Owning', 'Model.Config', 'Model.ConfigSpec', 'Proofs.ConfigProofs', 'Proofs.QueueInv', 'Proofs.QueueReach', 'Proofs.QueueProps', 'Proofs.QueueNonInt', 'Proofs.OwningProofs'],
  'theorems': [('C07_pop_any_used_ring',
                'Proofs/QueueProps.v',
                'pop_refines',
@@ -26,4 +26,7 @@ SPEC_ENTRY = {'title': 'A misbehaving device cannot corrupt driver state or caus
                'OwningQueue::poll ends in a result or an error for every used-ring content; every token it passes to pop_used heads an outstanding chain with exactly the buffer submitted for it (the queue stays stocked), and no slice longer than the buffer is delivered'),
               ('C07_owning_prefix_refuted', 'Proofs/OwningProofs.v', 'poll_prefix_refuted',
                'the behaviour before the repair is refuted: oversized length, then the same id again -> pop_used outside its contract, unshare of device address 0'),
-              ('C07_owning_fixed_on_witness', 'Proofs/OwningProofs.v', 'poll_fixed_on_witness', None)]}
+              ('C07_owning_fixed_on_witness', 'Proofs/OwningProofs.v', 'poll_fixed_on_witness', None),
+              ('C07_config_read_in_window', 'Proofs/ConfigProofs.v', 'cfg_read_bounds',
+               'configuration-space values: whatever offset / length a device-chosen value leads a driver to ask for, a read succeeds only if it lies inside the window and then touches exactly those bytes (shared with C13)'),
+              ('C07_config_monitor_meaning', 'Proofs/ConfigProofs.v', 'bounds_read_b_sound', 'what a true monitor 1302 means on any observed access sequence')]}
